@@ -307,7 +307,8 @@ def monitor(tr, case):
         feed_dem = np.asarray(args[8].in_units_bil_kcals_thou_tons_thou_tons_per_month().kcals, float)
         bio_dem = np.asarray(args[9].in_units_bil_kcals_thou_tons_thou_tons_per_month().kcals, float)
         k2b = ci["POP"] * 30.0 / 1e9  # kcal/person/day -> billion kcal per month
-        h3 = tr.herds[-1][1]
+        # the herds behind round 3: a third herd run when round 2 produced feed, otherwise the round-1 herds are reused
+        h3 = tr.herds[-1][1] if args[4] is not None else tr.herds[0][1]
         f0 = np.asarray(h3.feed_used.kcals, float)
         f1 = np.asarray(t3["feed"].kcals, float)
         b1 = np.asarray(t3["biofuel"].kcals, float)
